@@ -259,6 +259,12 @@ prop('C07', level='other', design_ref='DESIGN.md section 6 (C07)',
      text='Notifications (C20), _notify_sessions (C10), _notify_inner, on_caught_up, subscription_address_status are under contract: '
           'no hand-over lost, block queryable before it is reported, every touched subscribed script hash notified.',
      note='Components only; convergence over all interleavings of five tasks is not decided by contracts.',
+     bounded=[{'obligation': 'session.notify.bounded', 'driver': 'notify_native.py', 'request': {'rounds': 300},
+               'what': 'real ElectrumX sessions (1-3, sharing one touched set per notification as _notify_sessions does) against a '
+                       'model of confirmed history + mempool summaries: after every notification round each client holds the '
+                       'true status of every subscribed script hash (incl. status changes of untouched script hashes when a '
+                       'mempool parent confirms) and the true tip',
+               'bound': '300 (thorough: 1800) random histories of 3-9 steps (mempool add/evict, blocks, height-only) over 8 script hashes'}],
      explanation='Component obligations; composition written, not mechanised.',
      not_decided=['end-to-end convergence over schedules', 'status string formatting vs docs/protocol-basics.rst'], assumptions=[])
 
